@@ -5,7 +5,7 @@ and the same facts extracted from the C headers.  Core Lean only.
 
 Python side: ASTs as they are in the shipped tables.
 Header side: every type is an index into a table of (type string as the compiler / the header text
-spells it, AST); `resolve*` looks the ASTs up.  `Props/C49Gen.lean` proves that each string of that
+spells it, AST); `resolve*` looks the ASTs up.  Every text is a `Str` written as `dS <numeral>` (see Model/CType.lean).  `Props/C49Gen.lean` proves that each string of that
 table parses (with the model of `parse_type`) to the AST next to it, and that the resolved header
 tables equal the Python tables.
 
@@ -18,32 +18,32 @@ namespace MjProof.Introspect
 open MjProof.CType
 
 structure EnumT where
-  name : String
-  declname : String
-  values : List (String × Int)
+  name : Str
+  declname : Str
+  values : List (Str × Int)
   deriving DecidableEq, Repr
 
 inductive Item where
-  | field (name : String) (type : CType) (extent : Option (List String))
-  | openStruct (name : String)
-  | openUnion (name : String)
+  | field (name : Str) (type : CType) (extent : Option (List Str))
+  | openStruct (name : Str)
+  | openUnion (name : Str)
   | close
   deriving DecidableEq, Repr
 
 structure StructT where
-  name : String
-  declname : String
+  name : Str
+  declname : Str
   items : List Item
   deriving DecidableEq, Repr
 
 structure ParamT where
-  name : String
+  name : Str
   type : CType
   nullable : Bool
   deriving DecidableEq, Repr
 
 structure FuncT where
-  name : String
+  name : Str
   ret : CType
   params : List ParamT
   deriving DecidableEq, Repr
@@ -51,39 +51,33 @@ structure FuncT where
 /-! header side -/
 
 inductive ItemH where
-  | field (name : String) (ty : Nat) (extent : Option (List String))
-  | openStruct (name : String)
-  | openUnion (name : String)
+  | field (name : Str) (ty : Nat) (extent : Option (List Str))
+  | openStruct (name : Str)
+  | openUnion (name : Str)
   | close
   deriving DecidableEq, Repr
 
 structure StructH where
-  name : String
-  declname : String
+  name : Str
+  declname : Str
   items : List ItemH
   deriving Repr
 
 structure ParamH where
-  name : String
+  name : Str
   ty : Nat
   nullable : Bool
   deriving Repr
 
 structure FuncH where
-  name : String
+  name : Str
   ret : Nat
   params : List ParamH
   deriving Repr
 
-abbrev TypeTable := List (String × CType)
+abbrev TypeTable := List (Str × CType)
 
 def lookup (tbl : TypeTable) (i : Nat) : Option CType := (tbl[i]?).map (·.2)
-
-def mapMOpt {α β : Type} (f : α → Option β) : List α → Option (List β)
-  | [] => some []
-  | a :: as => match f a, mapMOpt f as with
-    | some b, some bs => some (b :: bs)
-    | _, _ => none
 
 def resolveItem (tbl : TypeTable) : ItemH → Option Item
   | .field n i e => (lookup tbl i).map (fun t => .field n t e)
@@ -103,7 +97,7 @@ def resolveFunc (tbl : TypeTable) (f : FuncH) : Option FuncT :=
   | _, _ => none
 
 /-- every string of the table parses to the AST next to it -/
-def tableParses (tbl : TypeTable) : Bool := tbl.all (fun p => parseType p.1.toList == some p.2)
+def tableParses (tbl : TypeTable) : Bool := tbl.all (fun p => parseType p.1 == some p.2)
 
 /-- all ASTs of the Python tables -/
 def itemTypes : List Item → List CType
